@@ -32,6 +32,7 @@ InitModel(cfg) ==
       largeRefused |-> FALSE,
       pend     |-> NoPend,
       call     |-> [api |-> "none", intent |-> [none |-> 1]],
+      ntx |-> 0, corrupted |-> FALSE,                            \* frames sent in the current call; one of its replies was corrupted
       nIntent  |-> 0,                                            \* frames of the current call that carry its intent
       last     |-> [k |-> "none"],                               \* what the target answered to the intent frame
       inClose  |-> FALSE,
@@ -275,14 +276,19 @@ Corrupt(bytes, c) ==
     ELSE IF c[1] = "flip" THEN [i \in 1..Len(bytes) |-> IF i = c[2] + 1 THEN ByteXor(bytes[i], c[3]) ELSE bytes[i]]
     ELSE IF c[1] = "status32" THEN SubSeq(bytes, 1, 8) \o LE(c[2] % 65536, 2) \o LE(c[2] \div 65536, 2) \o SubSeq(bytes, 13, Len(bytes))
     ELSE IF c[1] = "encap" THEN SubSeq(bytes, 1, 2) \o <<0, 0>> \o SubSeq(bytes, 5, 8) \o LE(c[2], 4) \o SubSeq(bytes, 13, 24)
+    ELSE IF c[1] = "trunc" /\ c[2] >= 24 /\ c[2] < Len(bytes) THEN            \* well framed, payload stops early: lengths fixed up
+         LET ds == IF bytes[1] = 112 THEN 44 ELSE 40
+             b2 == SubSeq(bytes, 1, 2) \o LE(c[2] - 24, 2) \o SubSeq(bytes, 5, c[2])
+         IN IF c[2] >= ds THEN SubSeq(b2, 1, ds - 2) \o LE(c[2] - ds, 2) \o SubSeq(b2, ds + 1, c[2]) ELSE b2
     ELSE bytes
-\* offset (in bytes) below which a reply cannot contain its CIP status words
-StatusEnd(bytes) == IF Len(bytes) >= 2 /\ bytes[1] = 112 THEN 50 ELSE 44
+\* length below which a reply cannot contain its CIP general status (a general status without the size of its
+\* additional status is still a status: what the caller makes of such a reply is not specified)
+StatusEnd(bytes) == IF Len(bytes) >= 2 /\ bytes[1] = 112 THEN 49 ELSE 43
 TxStep(m, ev) ==
-    LET r == TxStep0(m, ev) IN
+    LET r == TxStep0([m EXCEPT !.ntx = @ + 1], ev) IN
     IF r.fail # "" \/ ~Has(ev.choice, "corrupt") \/ r.m.pend.kind # "reply" THEN r
     ELSE LET c == ev.choice.corrupt  clean == r.m.pend.bytes  bad == Corrupt(clean, c) IN
-         Good([r.m EXCEPT !.pend = [kind |-> "reply", bytes |-> bad, tell |-> [k |-> "none"]],
+         Good([r.m EXCEPT !.pend = [kind |-> "reply", bytes |-> bad, tell |-> [k |-> "none"]], !.corrupted = TRUE,
                           !.last = [k |-> "corrupt", how |-> c[1], short |-> Len(bad) < StatusEnd(clean), encap |-> c[1] \in {"encap", "status32"} /\ c[2] # 0]])
 
 (* ------------------------------------------------------------------------------------------------------------ *)
@@ -346,6 +352,17 @@ RetStep(m, ev) ==
               IF tg.truthy # 1 \/ ~IsD(tg.value) THEN (IF TimeInRange(m.clock) THEN Bad(m, "C14:time-roundtrip") ELSE Good(m))
               ELSE LET us == DictGet(tg.value.d, <<109, 105, 99, 114, 111, 115, 101, 99, 111, 110, 100, 115>>) IN
                    IF us.ok /\ us.v = MkI(LEToBig(m.clock, FALSE)) THEN Good(m) ELSE Bad(m, "C14:time-roundtrip"))
+    ELSE IF m.corrupted /\ api \in {"read", "write"} THEN
+        \* a tag / data-file call one of whose replies was corrupted: values are not judged; a reply that cannot hold its
+        \* status words (or carries an encapsulation error) must not make the only request of the call succeed
+        LET tgs == ev.result.tags IN
+        IF ev.outcome # "value" THEN Good(m)
+        ELSE IF m.ntx = 1 /\ m.last.short /\ (\E i \in 1..Len(tgs) : TagTruthy(tgs[i])) THEN Bad(m, "C13:short-reply-success")
+        ELSE IF m.ntx = 1 /\ m.last.encap /\ (\E i \in 1..Len(tgs) : TagTruthy(tgs[i])) THEN Bad(m, "C13:success-on-error")
+        ELSE IF \E i \in 1..Len(tgs) : ~TagTruthy(tgs[i]) /\ (~IsS(tgs[i].error) \/ Len(tgs[i].error.s) = 0)
+                                        /\ ~(api = "write" /\ tgs[i].value = [none |-> 1])        \* writing None: unspecified
+             THEN Bad(m, "C13:empty-error")
+        ELSE Good(m)
     ELSE IF m.kind = "slc" /\ api \in {"read", "write"} THEN
         LET c == SlcRet(m, ev) IN IF c = "" THEN Good(m) ELSE Bad(m, c)
     ELSE LET r == LxRet(m.lx, m.call, ev) IN
@@ -354,7 +371,7 @@ RetStep(m, ev) ==
 (* ------------------------------------------------------------------------------------------------------------ *)
 Step(m, ev) ==
     CASE ev.k = "call" ->
-           Good([m EXCEPT !.call = [api |-> ev.api, intent |-> ev.intent], !.nIntent = 0, !.last = [k |-> "none"],
+           Good([m EXCEPT !.call = [api |-> ev.api, intent |-> ev.intent], !.nIntent = 0, !.last = [k |-> "none"], !.ntx = 0, !.corrupted = FALSE,
                           !.slcPre = m.slc, !.slcIdx = 0,
                           !.inClose = ev.api \in {"close", "exit"}, !.closeFault = FALSE,
                           !.lx = LxCall(m.lx, ev)])
